@@ -289,7 +289,7 @@ class Effects:
                     return out
                 target = m.find_method(cls, f.attr, skip_self=is_super)
                 if target is not None and not target.is_property:
-                    out.append((target, bind(target, list(c.args), True), "method"))
+                    out.append((target, bind(target, list(c.args), "staticmethod" not in target.decorators), "method"))
                     return out
         if not fa.cfg.has_node(c):
             return out
